@@ -294,7 +294,8 @@ def rule_eofonly(facts):
 CLAIM = {
     "text": "Must-pass-through on the MIR of CsvReader::poll_pull (decoder called on every path to `stream_exhausted: true`) and a "
             "reset rule on CsvReader::prepare: the csv_core end-of-input protocol, a necessary condition for returning the last record of "
-            "any file lacking a trailing newline. Record contents/type inference are runtime values and are not decided. Plus the dual: the end-of-input signal (decode with constant empty input) is issued only behind a branch on the byte count a read returned, so a sample or buffer boundary is never treated as the end of the file. Plus: CSV fields become text only through the checked from_utf8 on decoded fields (no unchecked conversion, no validation of raw read chunks); ByteRecords resets a length only behind a comparison that reads it; every candidate-type transition of type inference goes to a type that accepts all values of the type it leaves.",
+            "any file lacking a trailing newline. Record contents/type inference are runtime values and are not decided. Plus the dual: the end-of-input signal (decode with constant empty input) is issued only behind a branch on the byte count a read returned, so a sample or buffer boundary is never treated as the end of the file. Plus: CSV fields become text only through the checked from_utf8 on decoded fields (no unchecked conversion, no validation of raw read chunks); ByteRecords resets a length only behind a comparison that reads it; every candidate-type transition of type inference goes to a type that accepts all values of the type it leaves."
+            " Plus HDR: the empty field is valid for every candidate type, so header detection does not eat a first data row that has a NULL.",
     "note": "trusted: rustc MIR and csv_core's documented contract (empty input = end of data; reader stays in End until reset)",
     "technique": "static analysis: MIR must-pass-through / API-protocol rule (rustc_private driver)",
 }
